@@ -31,7 +31,7 @@ def generate(tier, rng):
                 c.op(e.id, 'varray', 'array/' + pl)
     # equal canonical names on neighbouring variants (legal for these derives): VARIANTS keeps one entry per variant
     from ..spec import VSpec
-    for j, (style, idents, attrs) in enumerate([('lowercase', ['Http', 'HTTP', 'Tcp', 'TCP'], {}), (None, ['Low', 'Mid', 'Mid2', 'High'], {'Mid2': 'Mid'}),
+    for j, (style, idents, attrs) in enumerate([('lowercase', ['Http', 'HTTP', 'Tcp', 'TCP'], {}), (None, ['Low', 'Mid', 'Mid2', 'High'], {'Mid2': 'Mid'}), (None, ['Low', 'Mid', 'High', 'Minimal'], {'Minimal': 'Low'}),
                                                  ('UPPERCASE', ['ab', 'Ab', 'AB', 'cd'], {}), ('snake_case', ['FooBar', 'Foo_Bar', 'Baz'], {})]):
         e = ESpec(id='c08d%d' % j, name='EnC08d%d' % j, style=style, derives=['EnumIter', 'EnumCount', 'VariantNames', 'VariantArray'],
                   feats=['iter', 'count', 'vnames', 'varray'])
